@@ -110,7 +110,17 @@ func (t tree) clone() tree {
 	return n
 }
 
-func baseTree() tree {
+// baseTree: variant 1 has a byte-identical duplicate of b.yml's first rule at the end of that file (rule identity
+// is then a multiset question: each HEAD copy pairs with one base copy).
+func baseTree(variant int) tree {
+	t := baseTree0()
+	if variant == 1 {
+		t.files[1].rules = append(t.files[1].rules, t.clone().files[1].rules[0])
+	}
+	return t
+}
+
+func baseTree0() tree {
 	mk := func(kind, name, expr string) rule {
 		r := rule{kind: kind, name: name, expr: expr}
 		if kind == "alerting" {
@@ -277,8 +287,8 @@ var allOps = ops()
 
 // special operations that are not tree edits
 const (
-	opRevert   = -1 // restore the tree of the previous commit
-	opMainSame = -2 // commit on main after the fork touching rules/a.yml (the branch is NOT rebased)
+	opRevert    = -1 // restore the tree of the previous commit
+	opMainSame  = -2 // commit on main after the fork touching rules/a.yml (the branch is NOT rebased)
 	opMainOther = -3
 )
 
@@ -297,7 +307,8 @@ func writeTree(r *gitrepo.Repo, prev, cur tree) {
 
 func body(c *explore.Chooser) *explore.Case {
 	depth := 1 + c.Free(maxDepth, "depth")
-	base := baseTree()
+	variant := c.Free(2, "base")
+	base := baseTree(variant)
 	cur := base.clone()
 	history := []tree{cur.clone()}
 	var names []string
@@ -372,8 +383,8 @@ func body(c *explore.Chooser) *explore.Case {
 			ncommits++
 		}
 	}
-	input := map[string]any{"history": names}
-	cs := &explore.Case{Input: input, Key: strings.Join(names, " ; ")}
+	input := map[string]any{"history": names, "base_variant": variant}
+	cs := &explore.Case{Input: input, Key: fmt.Sprint(variant, " ", strings.Join(names, " ; "))}
 	if ncommits == 0 || len(cur.files) == 0 {
 		return &explore.Case{Skip: true} // nothing on the branch / no rule file left at HEAD (pint ci stops with "no matching files")
 	}
@@ -399,36 +410,61 @@ func body(c *explore.Chooser) *explore.Case {
 		forkByID[f.id] = f
 	}
 	type key struct{ path, kind, name string }
-	want := map[key]string{}
+	want := map[key][]string{}
 	for _, f := range cur.files {
 		ff, existed := forkByID[f.id]
-		for _, ru := range f.rules {
-			k := key{f.path, ru.kind, ru.name}
+		used := make([]bool, len(ff.rules))
+		state := make([]string, len(f.rules))
+		// first pass: every HEAD rule pairs with one unused base rule of identical content
+		for hi, ru := range f.rules {
 			if !existed {
-				want[k] = "added"
+				state[hi] = "added"
 				continue
 			}
-			var before *rule
-			for i := range ff.rules {
-				if ff.rules[i].kind == ru.kind && ff.rules[i].name == ru.name {
-					before = &ff.rules[i]
+			for bi := range ff.rules {
+				if !used[bi] && ff.rules[bi].kind == ru.kind && ff.rules[bi].name == ru.name && ff.rules[bi].record(ff.fileDisables) == ru.record(f.fileDisables) {
+					used[bi] = true
+					state[hi] = "noop"
+					if ff.path != f.path {
+						state[hi] = "moved"
+					}
+					break
+				}
+			}
+		}
+		// second pass: the rest pairs by (kind, name) with what is left of the base file
+		for hi, ru := range f.rules {
+			if state[hi] != "" {
+				continue
+			}
+			left, total := 0, 0
+			for bi := range ff.rules {
+				if ff.rules[bi].kind == ru.kind && ff.rules[bi].name == ru.name {
+					total++
+					if !used[bi] {
+						left++
+					}
 				}
 			}
 			switch {
-			case before == nil:
-				want[k] = "added"
-			case before.record(ff.fileDisables) == ru.record(f.fileDisables) && ff.path == f.path:
-				want[k] = "noop"
-			case before.record(ff.fileDisables) == ru.record(f.fileDisables):
-				want[k] = "moved"
+			case left == 0:
+				state[hi] = "added"
+			case total > 1:
+				// several base rules carry this name: which of them a changed HEAD copy continues is not defined
+				// by a content comparison, so any "changed" state is in agreement with it
+				state[hi] = "changed"
 			case ff.path != f.path:
-				want[k] = "moved-or-modified"
+				state[hi] = "moved-or-modified"
 			default:
-				want[k] = "modified"
+				state[hi] = "modified"
 			}
 		}
+		for hi, ru := range f.rules {
+			k := key{f.path, ru.kind, ru.name}
+			want[k] = append(want[k], state[hi])
+		}
 	}
-	got := map[key]string{}
+	got := map[key][]string{}
 	for _, e := range entries {
 		if e.State == discovery.Removed {
 			continue
@@ -441,34 +477,73 @@ func body(c *explore.Chooser) *explore.Case {
 		if strings.HasPrefix(k.path, "rules/main_only") {
 			continue
 		}
-		if _, dup := got[k]; dup {
-			cs.Violate("duplicate-entry", fmt.Sprintf("rule %v appears twice in the entries", k), input)
+		got[k] = append(got[k], e.State.String())
+	}
+	accepts := func(w, g string) bool {
+		switch w {
+		case "moved-or-modified":
+			return g == "moved" || g == "modified"
+		case "changed":
+			return g == "added" || g == "modified" || g == "moved"
 		}
-		got[k] = e.State.String()
+		return g == w
 	}
 	outcomes := map[string]int{}
-	for k, w := range want {
-		g, ok := got[k]
-		outcomes[w]++
-		if !ok {
-			cs.Violate("rule-missing state="+w, fmt.Sprintf("HEAD rule %v is not in the entries pint would check", k), input)
+	for k, ws := range want {
+		gs := append([]string(nil), got[k]...)
+		for _, w := range ws {
+			outcomes[w]++
+		}
+		if len(gs) < len(ws) {
+			cs.Violate(fmt.Sprintf("rule-missing state=%s", ws[0]), fmt.Sprintf("HEAD rule %v: %d copies at HEAD, %d in the entries pint would check", k, len(ws), len(gs)), input)
 			continue
 		}
-		okState := g == w || (w == "moved-or-modified" && (g == "moved" || g == "modified"))
-		if !okState {
-			changedWant := w != "noop"
-			changedGot := g != "noop"
-			sev := "category"
-			if changedWant != changedGot {
-				sev = "changed-vs-unchanged"
+		if len(gs) > len(ws) {
+			cs.Violate("duplicate-entry", fmt.Sprintf("rule %v appears %d times in the entries, %d times at HEAD", k, len(gs), len(ws)), input)
+			continue
+		}
+		// multiset comparison: exact states first, then the tolerant ones
+		rest := []string{}
+		for _, w := range ws {
+			found := false
+			for i, g := range gs {
+				if g == w {
+					gs = append(gs[:i], gs[i+1:]...)
+					found = true
+					break
+				}
 			}
-			cs.Violate(fmt.Sprintf("%s want=%s got=%s last-op=%s", sev, w, g, opClass(names[len(names)-1])),
-				fmt.Sprintf("rule %v: pint says %s, a direct comparison of base and HEAD content says %s", k, g, w), map[string]any{"history": names, "head_files": headFiles(cur)})
+			if !found {
+				rest = append(rest, w)
+			}
+		}
+		for _, w := range rest {
+			found := false
+			for i, g := range gs {
+				if accepts(w, g) {
+					gs = append(gs[:i], gs[i+1:]...)
+					found = true
+					break
+				}
+			}
+			if !found {
+				g := "?"
+				if len(gs) > 0 {
+					g = gs[0]
+				}
+				sev := "category"
+				if (w != "noop") != (g != "noop") {
+					sev = "changed-vs-unchanged"
+				}
+				cs.Violate(fmt.Sprintf("%s want=%s got=%s last-op=%s", sev, w, g, opClass(names[len(names)-1])),
+					fmt.Sprintf("rule %v: pint says %v, a direct comparison of base and HEAD content says %v", k, got[k], ws), map[string]any{"history": names, "base_variant": variant, "head_files": headFiles(cur)})
+				break
+			}
 		}
 	}
 	for k, g := range got {
 		if _, ok := want[k]; !ok {
-			cs.Violate("phantom-rule got="+g, fmt.Sprintf("pint reports rule %v in state %s but the model has no such rule at HEAD", k, g), input)
+			cs.Violate("phantom-rule got="+g[0], fmt.Sprintf("pint reports rule %v in state %s but the model has no such rule at HEAD", k, g[0]), input)
 		}
 	}
 	cs.Outcome = fmt.Sprintf("noop=%d added=%d modified=%d moved=%d", min(outcomes["noop"], 1), min(outcomes["added"], 1), min(outcomes["modified"], 1), min(outcomes["moved"]+outcomes["moved-or-modified"], 1))
@@ -496,10 +571,10 @@ var maxDepth = 2
 func main() {
 	explore.Main(&explore.Config{
 		Property: "C03", Level: "exploration",
-		Rule: fmt.Sprintf("all branch histories of depth <=d (d=2 quick, 3 thorough) over an alphabet of %d concrete edit operations (add/delete/rename file, rename+edit, add rule top/end, delete rule, change expr/label/annotation/for, add/remove rule-level and file-level pint comments, comment-only and blank-line edits, group interval, per file and rule index) plus revert-previous-commit and the base branch advancing after the fork (same file / other file); each history is built in a real git repository, the real GlobFinder+GitBranchFinder classify every HEAD rule, compared with a direct comparison of the generator's own base and HEAD records following file identity across renames", len(allOps)),
+		Rule: fmt.Sprintf("all branch histories of depth <=d (d=2 quick, 3 thorough) over an alphabet of %d concrete edit operations (add/delete/rename file, rename+edit, add rule top/end, delete rule, change expr/label/annotation/for, add/remove rule-level and file-level pint comments, comment-only and blank-line edits, group interval, per file and rule index) over two base trees (plain; one with a byte-identical duplicate rule) plus revert-previous-commit and the base branch advancing after the fork (same file / other file); each history is built in a real git repository, the real GlobFinder+GitBranchFinder classify every HEAD rule, compared with a direct comparison of the generator's own base and HEAD records following file identity across renames", len(allOps)),
 		Assumptions: []string{
 			"rename+edit keeps the file similar enough for git's rename detection; a rule both moved and modified may be reported renamed or modified",
-			"(kind, name) is unique per file, so rule identity is unambiguous",
+			"(kind, name) is unique per file in base variant 0; variant 1 has one byte-identical duplicate rule and states are compared as multisets per (file, kind, name)",
 		},
 		Spaces: []*explore.Space{{Name: "histories", Body: body, Bound: func(string) int { return -1 }, Setup: func(t string) {
 			if t == "thorough" {
